@@ -166,7 +166,7 @@ def verify(html, tex, charmap, matches, context, case, file='t.tex'):
         for num, segs in over[0]['rows']:
             for t, title in segs:
                 if title is not None:
-                    ospans.append((title, htmlparse.norm(t), None))
+                    ospans.append((title, htmlparse.norm(t), num.replace('\xa0', '').strip()))
     titles_main = []
     for title, _, _ in spans:
         if not titles_main or titles_main[-1] != title:
@@ -193,6 +193,9 @@ def verify(html, tex, charmap, matches, context, case, file='t.tex'):
             raise Violation('highlighted-text-differs-from-source-span', case, dict(md, highlighted=got, source_span=tex[b:e]))
         if where and where[0][2] != lin:
             raise Violation('highlight-in-wrong-line', case, dict(md, line=where[0][2], expected_line=lin))
+        if where_o and where_o[0][2] != str(lin):
+            # the number in front of an entry of the overlap list is the line of the match (seeded change C14-H)
+            raise Violation('overlap-entry-with-wrong-line-number', case, dict(md, line=where_o[0][2], expected_line=lin))
     if len(set(titles_main + titles_over)) != len(matches):
         raise Violation('number-of-highlights-differs-from-number-of-matches', case, dict(det, titles=titles_main + titles_over))
     return rep
